@@ -4,12 +4,26 @@ package main
 // drivers (C03 determinism, later C02/C20). Grows as the writers are added.
 
 import (
+	"crypto/sha256"
+	"encoding/hex"
 	"fmt"
 	"strings"
 
 	tabula "github.com/tsawler/tabula"
 	"github.com/tsawler/tabula/text"
 )
+
+// hdoc is one document of a history: named operations returning result text
+// ("ERR: ..." for errors).
+type hdoc struct {
+	name string
+	run  map[string]func() string
+}
+
+func sha(s string) string {
+	h := sha256.Sum256([]byte(s))
+	return hex.EncodeToString(h[:8])
+}
 
 func errStr(err error) string { return "ERR: " + err.Error() }
 
